@@ -141,7 +141,7 @@ func runC07(c *Ctx) error {
 		src, mode string
 	}
 	var jobs []job
-	wantVals := []string{"6", "405", "12", "3", "3", "4", "103", "5.5", "248"} // the value of each corpus program's last variable
+	wantVals := []string{"6", "405", "12", "3", "3", "4", "103", "50", "5.5", "248"} // the value of each corpus program's last variable
 	corpus := []string{
 		"func ok(a int) bool { return a > 0 }; func f(a int) int { x := 5; switch { case ok(a): x = 6 }; return x }; y := f(1)",
 		"var n = 0; func inc() int { n++; return n }; func f() int { i := 0; for inc(); i < 4; inc() { i++ }; return i*100 + n }; x := f()",
@@ -150,6 +150,7 @@ func runC07(c *Ctx) error {
 		"func f() int { r := 0; for i := 0; i < 3; i++ { switch i { case 7: r += 100; default: break }; r += 1 }; return r }; x := f()",
 		"func f() int { a := []int{1, 2, 3}; e := make([]int, 2); n := copy(e, a); copy(e, a[1:]); if copy(e, a) > 1 { n++ }; return n + e[0] }; x := f()",
 		"func count(rows [][]int) int { n := 0; for _, r := range rows { for _, x := range r { n += x } }; return n }; func outer() int { a, b, c, d := 10, 20, 30, 40; n := count([][]int{{1, 2}, nil}); return a + b + c + d + n }; x := outer()",
+		"func clamp(x int) int { if x > 10 { }; return x }; func f() int { t := 0; for i := 8; i < 13; i++ { if i%2 == 0 { } else { }; t += clamp(i) }; return t }; x := f()",
 		"const K = 3; func f(_ int, _ int, c ...float64) float64 { const k = K + 1; var b byte = 255; b += k; return c[0]/2 + float64(b) }; x := f(1, 2, 5)",
 		"type T struct { A int }; func (t *T) M(xs ...byte) byte { return xs[0] + 200 }; func f() int { t := &T{}; var a, b int = 1, 2; var p, q = t.M(100), t.M(1, 2); return a + b + int(p) + int(q) }; x := f()",
 	}
@@ -211,6 +212,8 @@ func runC07(c *Ctx) error {
 	}
 	c.Rep.Sample(map[string]string{"source": srcs[0], "line": lines[0]})
 	if c.Model == nil {
+		// without the model (it does not build: a broken tie) the search still runs the corpus
+		c.c07RunCorpus(corpus, wantVals)
 		return fmt.Errorf("C07 needs the model (the verified checker runs inside goatmodel)")
 	}
 	nongo := map[string]bool{}
@@ -250,6 +253,11 @@ func runC07(c *Ctx) error {
 			c.Rep.Violate(Violation{Kind: "correspondence", Cut: "compile->verify", Input: srcs[k], Impl: lines[k], Model: a, Note: "the verified checker rejects the code the compiler emitted"})
 		}
 	}
+	c.c07RunCorpus(corpus, wantVals)
+	return nil
+}
+
+func (c *Ctx) c07RunCorpus(corpus, wantVals []string) {
 	// statement-only programs leave no residual values, and compute what Go computes (the value of their last
 	// top-level variable, worked out by hand: these programs exercise frames above a caller's locals)
 	for i, s := range corpus {
@@ -275,5 +283,4 @@ func runC07(c *Ctx) error {
 			}
 		}()
 	}
-	return nil
 }
